@@ -87,6 +87,25 @@ pub async fn behaviour_server(mut server: ServerEnd) -> Vec<ReqMsg> {
                         rest.extend_from_slice(&done("done", None));
                         send_later(&tx, rest, l);
                     }
+                } else if let Some(spec) = b.strip_prefix("ph") {
+                    // phN: like pagedN, but every page after the first is left incomplete (entries, no Done)
+                    let n: usize = spec.parse().unwrap_or(0);
+                    let ctl = m.controls.as_ref().and_then(|cs| cs.iter().find(|c| c.oid == PAGED_OID.as_bytes()));
+                    if let Some((size, cookie)) = ctl.and_then(|c| c.val.as_ref()).and_then(|v| parse_paged(v)) {
+                        let off: usize = String::from_utf8_lossy(&cookie).parse().unwrap_or(0);
+                        let size = size.max(1) as usize;
+                        let end = (off + size).min(n);
+                        let mut bytes = vec![];
+                        for k in off..end {
+                            bytes.extend_from_slice(&entry(id, k));
+                        }
+                        if off == 0 {
+                            let next_cookie = if end < n { end.to_string().into_bytes() } else { vec![] };
+                            let c = RespCtl { oid: PAGED_OID.into(), crit: CritEnc::Absent, val: Some(paged_value(n as i64, &next_cookie)) };
+                            bytes.extend_from_slice(&done(if end < n { "page" } else { "done" }, Some(vec![c])));
+                        }
+                        tx.send(&bytes);
+                    }
                 } else if let Some(spec) = b.strip_prefix("paged") {
                     // pagedNxP: result set of N entries; page size from the request control
                     let n: usize = spec.split('x').next().and_then(|x| x.parse().ok()).unwrap_or(0);
@@ -143,6 +162,9 @@ pub enum Step {
     /// (items total, sent before hold, read before finish, late ms)
     StreamEarly(usize, usize, usize, Option<u64>),
     Paged(usize, i32, bool),
+    /// (result set size, page size, items to read before finish(), behind EntriesOnly): pages after
+    /// the first are left incomplete by the server, finish() is called while such a page is in flight
+    PagedEarly(usize, i32, usize, bool),
     TimeoutSingle(bool),
     TimeoutStream(usize, usize),
     AbandonFinished,
@@ -161,6 +183,7 @@ impl Step {
             Step::StreamEarly(..) => "direct-stream-finished-early",
             Step::Paged(_, _, false) => "paged-search",
             Step::Paged(_, _, true) => "paged-search-behind-entries-only",
+            Step::PagedEarly(..) => "paged-search-finished-early-on-a-later-page",
             Step::TimeoutSingle(_) => "single-op-timeout",
             Step::TimeoutStream(..) => "stream-timeout",
             Step::AbandonFinished => "abandon-of-finished-op",
@@ -172,7 +195,14 @@ impl Step {
 }
 
 pub fn gen_step(rng: &mut Rng) -> Step {
-    match rng.below(13) {
+    match rng.below(14) {
+        13 => {
+            let p = 1 + rng.usize(5);
+            let n = p + 1 + rng.usize(10);
+            // read the whole first page and 0..=min(p, n-p) items of the second
+            let j = p + rng.usize(p.min(n - p) + 1);
+            Step::PagedEarly(n, p as i32, j, rng.bool())
+        }
         0 => Step::Single,
         1 => Step::Unsolicited,
         2 => Step::SearchAll(rng.usize(8)),
@@ -267,6 +297,10 @@ pub async fn run_step(ldap: &mut Ldap, other: &mut Ldap, step: &Step, tok: u64, 
         Step::Paged(n, p, behind) => {
             let adapters: Vec<Box<dyn Adapter<'static, String, Vec<String>>>> = if *behind { vec![Box::new(EntriesOnly::new()), Box::new(PagedResults::new(*p))] } else { vec![Box::new(PagedResults::new(*p))] };
             obs.outcome = read_all(ldap, adapters, &format!("op={},b=paged{}x{}", tok, n, p), None).await;
+        }
+        Step::PagedEarly(n, p, j, behind) => {
+            let adapters: Vec<Box<dyn Adapter<'static, String, Vec<String>>>> = if *behind { vec![Box::new(EntriesOnly::new()), Box::new(PagedResults::new(*p))] } else { vec![Box::new(PagedResults::new(*p))] };
+            obs.outcome = read_all(ldap, adapters, &format!("op={},b=ph{}", tok, n), Some(*j)).await;
         }
         Step::TimeoutSingle(late) => {
             // a zero timeout fires before the driver has even seen the request
